@@ -307,6 +307,7 @@ def run(rep, tier, seed, replay):
                     if not ("a0:noconnect" in r1[0] or r1[0].startswith("ERR:connect") or r1[0].startswith("ERR:listen")):
                         break
     nontrivial, mism, late, samples = set(), 0, 0, []
+    padb_over = 0
     outcomes = {}
     for i, case in enumerate(cases):
         m = mo[i] if i < len(mo) else "MISSING"
@@ -319,6 +320,9 @@ def run(rep, tier, seed, replay):
             nontrivial.add(hashlib.sha1(case.encode()).digest())
         if "lib=late" in o:
             late += 1
+        mp = re.match(r"^O \d \d \d \S+ K,O(\d+),", case)
+        if mp and int(mp.group(1)) > 512 and re.search(r"a\d+m:(\S*,)?ok", o):
+            padb_over += 1
         if len(samples) < 6 and i % 211 == 7:
             samples.append({"case": case[:200], "impl": o[:300]})
         tg = case.rsplit(" #", 1)[1] if " #" in case else tags[i]
@@ -343,7 +347,8 @@ def run(rep, tier, seed, replay):
                    rule="non-trivial = distinct scenario in which the library's handshake got past its first read (a per-segment state was observed) or succeeded",
                    samples=samples, input_distribution=stats, outcome_distribution=outcomes, mismatches=mism,
                    setup_reruns=setup_reruns,
-                   observations={"unread_handshake_data_parsed_only_with_next_read (lib=late)": late},
+                   observations={"unread_handshake_data_parsed_only_with_next_read (lib=late)": late,
+                                 "outgoing_handshake_succeeded_with_PadB_over_512 (coalesced with the key; coq padb_bound_512_refuted)": padb_over},
                    exhaustive=(tier == "thorough"),
                    exhaustive_scope="thorough: all 15 policies x {in,out} x {plain, MSE 1,2,3} x pad lengths {0,1,255,511,512}^2 x IA on/off, whole-segment" if tier == "thorough" else "")
     rep.cov.update(params_probe=probe, params_source_crosscheck=probe_notes,
